@@ -320,6 +320,8 @@ class Ctx(object):
                 for nm in names:
                     self.obligations.append((nm, True, rel))
                 self.log('proved %s: %d theorems in %.1fs' % (rel, len(names), dt))
+                if self.tier == 'thorough' and rel.startswith('theories/Props/'):
+                    self.start_coqchk(rel)
             else:
                 ok_all = False
                 msg = (err or out)[-2000:]
@@ -517,7 +519,51 @@ class Ctx(object):
         self.broken.append((kind, name, detail))
 
     # -- finish ---------------------------------------------------------------
+    def start_coqchk(self, rel):
+        """thorough tier: the independent checker re-checks the compiled property file and everything it depends on
+        (coqchk -o also lists the axioms of every loaded library); runs beside the rest of the check"""
+        import threading
+        mod = 'PM.' + rel[len('theories/'):-2].replace('/', '.')
+        box = {'mod': mod}
+
+        def job():
+            t0 = time.time()
+            try:
+                p = subprocess.run(['coqchk', '-silent', '-o', '-R', 'theories', 'PM', mod], cwd=COQ,
+                                   stdout=subprocess.PIPE, stderr=subprocess.STDOUT, text=True, timeout=2400)
+                box['rc'], box['out'] = p.returncode, p.stdout
+            except subprocess.TimeoutExpired:
+                box['rc'], box['out'] = None, 'coqchk did not finish within 2400 s'
+            except Exception as e:      # noqa
+                box['rc'], box['out'] = None, 'coqchk could not be run: %s' % e
+            box['dt'] = time.time() - t0
+        th = threading.Thread(target=job, daemon=True)
+        th.start()
+        self._coqchk = getattr(self, '_coqchk', []) + [(box, th)]
+
+    def join_coqchk(self):
+        for box, th in getattr(self, '_coqchk', []):
+            th.join()
+            out = box.get('out') or ''
+            k = out.find('CONTEXT SUMMARY')
+            summary = out[k:].strip()[:1500] if k >= 0 else out[-1500:]
+            name = 'coqchk:' + box['mod']
+            if box.get('rc') == 0:
+                self.obligations.append((name, True, summary))
+                self.cov['coqchk'] = {'module': box['mod'], 'seconds': round(box.get('dt', 0), 1), 'summary': summary}
+                self.log('coqchk -o %s: ok in %.0fs' % (box['mod'], box.get('dt', 0)))
+            elif box.get('rc') is None:
+                # not a verdict on the proofs: recorded, not counted as an obligation
+                self.cov['coqchk'] = {'module': box['mod'], 'not_completed': summary}
+                self.log('coqchk -o %s: %s' % (box['mod'], summary))
+            else:
+                self.obligations.append((name, False, summary))
+                self.broken.append(('proof', name, summary))
+                self.log('COQCHK FAILED %s\n%s' % (box['mod'], summary))
+        self._coqchk = []
+
     def finish(self, level='proof'):
+        self.join_coqchk()
         # broken ties / proofs for which no concrete failing input was found
         for kind, name, detail in self.broken:
             # reported even when a concrete failing input was also found (never silently dropped)
